@@ -22,7 +22,7 @@ RULE = ("one case = one zoo module config (kind, 2D/3D mesh, boundary conditions
         "option class, episode kinds); non-trivial = the history contains a k>=2 episode, a partial seed or a completed "
         "linearity triple")
 PROBES = ["partial_seed", "k3_repeats", "dyadcarrier_sensitivity", "linearity_triple_checked", "response_between_seed_and_sens",
-          "new_inputs_epoch", "seed_mutated_inplace_idempotent", "complex_module", "iterative_solver", "repeat_after_reset_checked"]
+          "new_inputs_epoch", "seed_mutated_inplace_idempotent", "complex_module", "iterative_solver", "repeat_after_reset_checked", "seed_single_column", "seed_single_entry"]
 FAULT_KINDS = ["seed_by_reference_aliasing"]
 COMPONENTS = {"real": ["every public non-I/O pyMOTO module constructible here: " + ", ".join(zoo.KINDS)],
               "stub": []}
@@ -122,12 +122,31 @@ def run(case):
     first_sens_done = False
     nout = len(outs)
 
+    def blocked(ws, seed):
+        """ partial seeds *within* an output: only one column (matrix seeds) / one entry (vector seeds) is non-zero -- an
+        objective that looks at one mode / one load case / one dof exercises the skip branches of the adjoint code """
+        out = []
+        for j, w in enumerate(ws):
+            m = (seed + j) % 5
+            if isinstance(w, np.ndarray) and w.ndim == 2 and w.shape[1] > 1 and m == 1:
+                mask = np.zeros(w.shape[1])
+                mask[(seed // 5) % w.shape[1]] = 1.0
+                w = w * mask[None, :]
+                probe("seed_single_column")
+            elif isinstance(w, np.ndarray) and w.ndim == 1 and w.size > 1 and m == 2:
+                mask = np.zeros(w.size)
+                mask[(seed // 5) % w.size] = 1.0
+                w = w * mask
+                probe("seed_single_entry")
+            out.append(w)
+        return out
+
     def seeds_for(wkey):
         if wkey == "1":
-            return E["make_seeds"](case["w1"])
+            return blocked(E["make_seeds"](case["w1"]), case["w1"])
         if wkey == "2":
-            return E["make_seeds"](case["w2"])
-        w1, w2 = E["make_seeds"](case["w1"]), E["make_seeds"](case["w2"])
+            return blocked(E["make_seeds"](case["w2"]), case["w2"])
+        w1, w2 = blocked(E["make_seeds"](case["w1"]), case["w1"]), blocked(E["make_seeds"](case["w2"]), case["w2"])
         return [zoo.lincomb(a, x, b, y) for x, y in zip(w1, w2)]
 
     def states():
